@@ -77,6 +77,11 @@ func report(id, tier string, seed int, sc *Sidecar, ld *Loaded, sums []*harnessS
 		if err != nil {
 			die(2, "replayer: %v", err)
 		}
+		for _, hs := range sc.Harnesses {
+			if hs.Race {
+				rp.race = true // replays run under the Go race detector
+			}
+		}
 		defer rp.Close()
 		byPkg := map[string][]ReplayModel{}
 		type ref struct {
@@ -189,6 +194,16 @@ func report(id, tier string, seed int, sc *Sidecar, ld *Loaded, sums []*harnessS
 				reproduced = rr.Outcome == "timeout" || rr.Outcome == "crash" || rr.Outcome == "panic"
 			case "race":
 				reproduced = rr.Outcome == "crash" && strings.Contains(rr.Msg, "DATA RACE")
+				if !reproduced {
+					// a race needs the detector to see both accesses in one run: try again a few times
+					for try := 0; try < 8 && !reproduced; try++ {
+						res, err := rp.run(pkgOfHarness(v.Harness), []ReplayModel{{ID: 1, Harness: shortName(v.Harness), Vars: v.Inputs, Params: g.hs.Params[tier]}})
+						if err == nil {
+							rr = res[1]
+							reproduced = rr.Outcome == "crash" && strings.Contains(rr.Msg, "DATA RACE")
+						}
+					}
+				}
 			}
 		}
 		if g.hs != nil && g.hs.NoReplay {
@@ -436,6 +451,11 @@ func runReplayFile(path string) int {
 		die(2, "%v", err)
 	}
 	defer rp.Close()
+	for _, hs := range sc.Harnesses {
+		if hs.Race {
+			rp.race = true
+		}
+	}
 	res, err := rp.run(pkgOfHarness(rf.Harness), []ReplayModel{{ID: 1, Harness: shortName(rf.Harness), Vars: rf.Vars, Params: rf.Params}})
 	if err != nil {
 		die(2, "%v", err)
